@@ -323,7 +323,8 @@ func (f *fwd) sendOne(i int) {
 		ri.kind, ri.idem = "graph", f.w.Cfg.IdempotentGraph
 		ri.specs = f.script(tok, c.Version)
 		ri.req = c.Send("query", tok, world.QueryMsg("g.V().has('k','"+tok+"').property('v', 1)", cl), func(fr *frame.Frame) {
-			fr.SetCustomPayload(map[string][]byte{"graph-source": []byte("g"), "graph-language": []byte("gremlin-groovy")})
+			// a single entry: the wire order of a Go map is random and would make byte counts differ between replays
+			fr.SetCustomPayload(map[string][]byte{"graph-source": []byte("g")})
 		})
 	case kExecForeign:
 		id := f.foreignID()
